@@ -355,7 +355,9 @@ func TestC24(t *testing.T) {
 		"every certificate window around [timestamp, timestamp+lifetime] (all window cases under time.Local = UTC, UTC+05:30 and UTC-08:00); all hop-expiry vectors over {0,63,255} of 2- and 3-entry " +
 		"segments x entry position x certificate windows relative to that entry's own / the segment's shortest / longest lifetime " +
 		"(and peer hop fields with another expiry); chains in the DB or only at a remote server that " +
-		"answers with right/wrong chains; cached verifier histories of 2 verifications (same key with other validity; warm-ups of several ASes followed by every signer-identity forgery). One case = one VerifySegment verdict " +
+		"answers with right/wrong chains; the fetch path for real (part H: trust DB with the TRC only, real grpc Fetcher against an in-process TrustMaterialService that answers " +
+		"with every ordered list of 1-3 chains from {genuine, other AS, right ISD-AS other key id, same key but validity not covering} x query with/without validity at the fetcher, and " +
+		"x entry signed by {genuine key, other AS's key, another certified key of the AS} x 1-/2-entry segments end to end); cached verifier histories of 2 verifications (same key with other validity; warm-ups of several ASes followed by every signer-identity forgery). One case = one VerifySegment verdict " +
 		"on a distinct (segment bytes, trust material, history); non-trivial = every case"
 	var budget atomic.Bool
 	done := make(chan struct{})
@@ -371,6 +373,7 @@ func TestC24(t *testing.T) {
 	}()
 	synctest.Test(t, func(t *testing.T) { c24Run(r, &budget) })
 	close(done)
+	c24FetchPath(t, r)
 	if budget.Load() {
 		r.Capped("internal budget reached; remaining segment shapes skipped")
 	}
